@@ -788,3 +788,58 @@ def _tail_index(node, tailnames):
     if isinstance(node, ast.Subscript) and isinstance(node.value, ast.Name) and node.value.id in tailnames:
         return const_int(node.slice)
     return None
+
+
+# ---------------------------------------------------------------------------
+# C11 dfg: Herbrand-term equivalence with the published algorithms
+# ---------------------------------------------------------------------------
+
+def rule_dfg(ctx):
+    from . import herbrand as HB
+    specs = {"fasthash64": (8, HB.ref_fasthash64), "murmur3": (4, HB.ref_murmur3)}
+    for name, (B, ref) in specs.items():
+        f = ctx.model.func("hashes", name)
+        ctx.analysed_funcs.add(f.key)
+        try:
+            paths = HB.HInterp(ctx.model, f, B).run_public()
+        except HB.HUndecided as u:
+            ctx.ob("dfg", f, f.node, "%s: value-numbering of all paths" % name, "every path's result term is computable", None, str(u))
+            continue
+        seen = {}
+        for assume, has_loop, term in paths:
+            rs = [a[0][1] for a in assume if a[0][0] == "res" and a[1]]
+            r = rs[0] if rs else 0
+            hb = [a[1] for a in assume if a[0][0] == "hasblocks"]
+            if hb and hb[-1] != has_loop:
+                ctx.ob("dfg", f, f.node, "%s: residue %d" % (name, r), "blocks are folded exactly when there are blocks", False,
+                       "path takes the `has blocks` branch=%s but %s the block loop" % (hb[-1], "runs" if has_loop else "skips"))
+                continue
+            key = (r, has_loop)
+            try:
+                got = HB.nf(term, f.rtype.bits)
+                want = HB.nf(ref(r, has_loop), f.rtype.bits)
+            except AnalysisError as e:
+                ctx.ob("dfg", f, f.node, "%s: residue %d" % (name, r), "normal form computable", None, str(e))
+                continue
+            d = HB.diff(got, want)
+            seen[key] = d is None
+            ctx.ob("dfg", f, f.node, "%s: len %% %d == %d, %s" % (name, B, r, "with whole blocks" if has_loop else "no whole block"),
+                   "the result term equals the published %s on this path (Herbrand normal form modulo 2^%d)" % ("FastHash64" if name == "fasthash64" else "MurmurHash3_x86_32", f.rtype.bits),
+                   d is None, "" if d is None else d)
+        for r in range(B):
+            if not any(k[0] == r for k in seen):
+                ctx.ob("dfg", f, f.node, "%s: residue %d" % (name, r), "every tail length has a path", False, "no path handles len %% %d == %d" % (B, r))
+        if not any(k[1] for k in seen):
+            ctx.ob("dfg", f, f.node, "%s: block loop" % name, "whole blocks are folded on some path", False, "no path runs the block loop")
+    # fasthash32 = low-entropy fold of fasthash64
+    f = ctx.model.func("hashes", "fasthash32")
+    ctx.analysed_funcs.add(f.key)
+    try:
+        paths = HB.HInterp(ctx.model, f, 8).run_public()
+        for assume, has_loop, term in paths:
+            got = HB.nf(term, 32)
+            want = HB.nf(HB.ref_fasthash32(), 32)
+            d = HB.diff(got, want)
+            ctx.ob("dfg", f, f.node, "fasthash32", "fasthash32 == uint32(h - (h >> 32)) of fasthash64(key, seed)", d is None, "" if d is None else d)
+    except HB.HUndecided as u:
+        ctx.ob("dfg", f, f.node, "fasthash32", "result term computable", None, str(u))
